@@ -13,6 +13,8 @@ pub mod read_only_db;
 pub mod snapshot;
 pub mod transaction;
 pub mod write_batch;
+#[cfg(feature = "verif-hooks")]
+pub mod verif_hooks;
 
 #[cfg(test)]
 mod tests;
